@@ -190,7 +190,9 @@ def _obs(ctx, out):
     ob = getattr(ctx, 'observed', None)
     if isinstance(ob, list):
         ob = sorted(ob, key=repr)
-    return repr((norm(out), ob))
+    r = repr((norm(out), ob))
+    root = getattr(ctx, 'root_used', None)
+    return r.replace(root, '/r') if root and root != '/r' else r
 
 
 def validate_against_real(conds, seed, per_cond=1, limit=40):
